@@ -76,45 +76,67 @@ Fits(e, slot) == CASE slot = "C" -> IsObjY(e) [] slot = "V" -> IsVal(e) [] slot 
 (* by slot class and leaf count: pool[slot][n]                                                     *)
 SlotNames == {"C", "V", "N", "H", "S", "D"}
 Index(set, m) == [sl \in SlotNames |-> [n \in 0..m |-> {x \in set : Fits(x, sl) /\ NL(x) = n}]]
-RECURSIVE Fill(_, _, _, _)
-Fill(slots, i, pool, m) ==
+\* children from the atom pool, or (while the nesting budget k lasts) from the pool of nested expressions
+RECURSIVE Fill(_, _, _, _, _, _)
+Fill(slots, i, apool, npool, m, k) ==
   IF i > Len(slots) THEN {<<>>}
-  ELSE UNION {UNION {{<<e>> \o s : s \in Fill(slots, i + 1, pool, m - n)} : e \in pool[slots[i]][n]} : n \in 0..m}
+  ELSE UNION {UNION {{<<e>> \o s : s \in Fill(slots, i + 1, apool, npool, m - n, k)} : e \in apool[slots[i]][n]} : n \in 0..m}
+       \cup (IF k = 0 THEN {} ELSE
+             UNION {UNION {{<<e>> \o s : s \in Fill(slots, i + 1, apool, npool, m - n, k - 1)} : e \in npool[slots[i]][n]} : n \in 0..m})
 
 Atoms == {VLeaf, CLeaf, SLeaf, DLeaf, Nm("P")}
-Build(pool, m) == {x \in UNION {{Nd(t, a) : a \in Fill(Slots(t), 1, pool, m)} : t \in Forms} \cup
-                        UNION {{CallN(s, a) : a \in Fill(<<"C">> \o [i \in 1..Len(s) |-> SigSlot(s[i])], 1, pool, m)} : s \in Sigs}
-                    : NL(x) >= 1}
-E1 == Build(Index(Atoms, MaxLeaves), MaxLeaves)
+Build(apool, npool, m, k) ==
+   {x \in UNION {{Nd(t, a) : a \in Fill(Slots(t), 1, apool, npool, m, k)} : t \in Forms} \cup
+          UNION {{CallN(s, a) : a \in Fill(<<"C">> \o [i \in 1..Len(s) |-> SigSlot(s[i])], 1, apool, npool, m, k)} : s \in Sigs}
+     : NL(x) >= 1}
+IdxA == Index(Atoms, MaxLeaves)
+E1 == Build(IdxA, IdxA, MaxLeaves, 0)
 E01 == Atoms \cup E1
-E2 == Build(Index(E01, MaxLeaves2), MaxLeaves2) \ E1
-\* small operand pool for statements: leaves, names and one-level forms with at most 2 leaves
+\* two-level expressions: (a) one nested child, any one-level expression; (b) two nested children from a core family
+IdxE1 == Index(E1, MaxLeaves2)
+Core == {Nd("neg", <<VLeaf>>), Nd("not", <<VLeaf>>), Nd("getitem", <<CLeaf, VLeaf>>), Nd("getitem", <<Nm("P"), VLeaf>>),
+         Nd("getattr", <<CLeaf>>), CallN(<<"p">>, <<CLeaf, VLeaf>>), CallN(<<>>, <<CLeaf>>), Nd("in", <<VLeaf, Nm("P")>>),
+         Nd("add", <<VLeaf, VLeaf>>), Nd("lt", <<VLeaf, VLeaf>>), Nd("and", <<VLeaf, VLeaf>>), Nd("tuple", <<VLeaf, VLeaf>>)}
+IdxCore == Index(Core, MaxLeaves)
+E2 == (Build(IdxA, IdxE1, MaxLeaves2, 1) \cup Build(IdxA, IdxCore, MaxLeaves, 2)) \ E1
+
+(* structural hash for sub-sampling *)
+TNames == <<"L", "N", "call", "getitem", "slice", "getattr", "add", "neg", "lt", "lt3", "in", "notin", "and", "or", "not", "cond",
+            "tuple", "list", "set", "dict1", "dict2", "fstr", "fspec", "ret", "assign", "aug", "unpack", "tN", "tsub", "tattr", "tslice">>
+KNames == <<"", "v", "c", "s", "d", "P", "Q", "p", "k">>
+CodeOf(names, x) == CHOOSE i \in 1..Len(names) : names[i] = x
+RECURSIVE H(_), HS(_, _), HSig(_, _)
+H(e) == (CodeOf(TNames, e.t) * 37 + CodeOf(KNames, e.k) * 101 + HSig(e.sig, Len(e.sig)) + HS(e.a, Len(e.a))) % 1009
+HS(s, n) == IF n = 0 THEN 0 ELSE ((2 * n + 3) * H(s[n]) + 7 * HS(s, n - 1)) % 1009
+HSig(s, n) == IF n = 0 THEN 0 ELSE (n * CodeOf(KNames, s[n]) * 11 + HSig(s, n - 1)) % 1009
+Sel(e) == H(e) % Mod = Rem
+
+\* operand pools for statements
 Opd == {e \in E01 : NL(e) <= 2 /\ IsVal(e)}
-
-(* assignment targets *)
-TCont == {CLeaf, Nm("P"), Nm("Q")} \cup {e \in E1 : e.t \in {"getitem", "getattr"} /\ e.a[1] = CLeaf /\ NL(e) <= 2}
-Targets(m) == {Nd("tN", <<>>)} \cup
-   {Nd("tsub", <<c, i>>) : c \in {x \in TCont : NL(x) <= m}, i \in {x \in Opd : NL(x) <= m}} \cup
-   {Nd("tattr", <<c>>) : c \in {x \in TCont : NL(x) <= m}} \cup
-   {Nd("tslice", <<c, i, j>>) : c \in {CLeaf, Nm("P")}, i \in {VLeaf, Nd("not", <<VLeaf>>)}, j \in {VLeaf}}
-TargetsM == {t \in Targets(MaxLeaves) : NL(t) <= MaxLeaves}
-
-UnpackRhs == {SLeaf, CLeaf} \cup {Nd(t, <<x, y>>) : t \in {"tuple", "list"}, x \in Opd, y \in Opd}
+TIdx == {VLeaf, Nd("not", <<VLeaf>>), Nd("in", <<VLeaf, Nm("P")>>), Nd("add", <<VLeaf, VLeaf>>), Nd("lt", <<VLeaf, VLeaf>>),
+         Nd("getitem", <<CLeaf, VLeaf>>), CallN(<<"p">>, <<CLeaf, VLeaf>>), Nd("tuple", <<VLeaf, VLeaf>>), Nd("neg", <<VLeaf>>)}
+TCont == {CLeaf, Nm("P"), Nm("Q"), Nd("getitem", <<CLeaf, VLeaf>>), Nd("getattr", <<CLeaf>>), CallN(<<>>, <<CLeaf>>)}
+TargetsM == {t \in {Nd("tN", <<>>)} \cup {Nd("tsub", <<c, i>>) : c \in TCont, i \in TIdx} \cup {Nd("tattr", <<c>>) : c \in TCont} \cup
+                   {Nd("tslice", <<c, i, j>>) : c \in {CLeaf, Nm("P")}, i \in {VLeaf, Nd("not", <<VLeaf>>)}, j \in {VLeaf, Nd("lt", <<VLeaf, VLeaf>>)}}
+             : NL(t) <= MaxLeaves - 1}
+Targets1 == {t \in TargetsM : NL(t) <= 1}
+RElt == {VLeaf, Nd("getitem", <<CLeaf, VLeaf>>), Nd("getitem", <<Nm("P"), VLeaf>>), Nd("getitem", <<Nm("Q"), VLeaf>>),
+         Nd("not", <<VLeaf>>), Nd("neg", <<VLeaf>>)}
+UnpackRhs == {SLeaf, CLeaf} \cup {Nd(t, <<x, y>>) : t \in {"tuple", "list"}, x \in RElt, y \in RElt}
 
 Stmts ==
   (IF "ret1" \in Tops THEN {Nd("ret", <<e>>) : e \in {x \in E1 : IsVal(x)}} ELSE {}) \cup
-  (IF "ret2" \in Tops THEN {Nd("ret", <<e>>) : e \in E2} ELSE {}) \cup
+  (IF "ret2" \in Tops THEN {Nd("ret", <<e>>) : e \in {x \in E2 : Sel(x)}} ELSE {}) \cup
   (IF "assign" \in Tops THEN
       {Nd("assign", <<t1, v>>) : t1 \in TargetsM \ {Nd("tN", <<>>)}, v \in Opd} \cup
       {Nd("assign", <<t1, t2, v>>) : t1 \in TargetsM, t2 \in TargetsM, v \in {VLeaf, Nd("not", <<VLeaf>>)}} \cup
-      {Nd("assign", <<t1, t2, t3, v>>) : t1 \in {t \in TargetsM : NL(t) <= 1}, t2 \in {t \in TargetsM : NL(t) <= 1},
-                                         t3 \in {t \in TargetsM : NL(t) <= 1}, v \in {VLeaf}}
+      {Nd("assign", <<t1, t2, t3, v>>) : t1 \in Targets1, t2 \in Targets1, t3 \in Targets1, v \in {VLeaf}}
    ELSE {}) \cup
   (IF "aug" \in Tops THEN {Nd("aug", <<t1, v>>) : t1 \in (TargetsM \ {Nd("tN", <<>>)}) \cup {Nm("P")}, v \in Opd} ELSE {}) \cup
-  (IF "unpack" \in Tops THEN {Nd("unpack", <<t1, t2, r>>) : t1 \in TargetsM, t2 \in TargetsM, r \in UnpackRhs} ELSE {})
+  (IF "unpack" \in Tops THEN {Nd("unpack", <<t1, t2, r>>) : t1 \in Targets1, t2 \in Targets1, r \in UnpackRhs} ELSE {})
 
 SizesP == PrintT(<<"sizes", Cardinality(E1), Cardinality(E2), Cardinality(Opd), Cardinality(TargetsM), Cardinality(Stmts)>>)
-Cases == {s \in Stmts : NL(s) >= 1 /\ NL(s) <= MaxLeaves}
+Cases == {s \in Stmts : NL(s) >= 1 /\ NL(s) <= MaxLeaves /\ (s.t = "ret" \/ Sel(s))}
 
 ---------------------------------------------------------------------------
 (* leaf paths: the root has path 0, child j of the node at path p has path 8p+j *)
